@@ -440,6 +440,52 @@ def r5_copy_on_partial(repo: Repo, rep):
             rep.check(R, not bad, fi.site(), fi.fq, "no write to wrapper state or to the caller's mapping", f"writes {bad}", str(sorted(bad)))
 
 
+def r7_set_default(repo: Repo, rep):
+    R = rep.rule("R-C13-7", "set_default(**values) binds EVERY given name that is an argument of the function to the given value — also names that already have a default — and nothing else; "
+                 "necessary / optional arguments are told apart by presence in the defaults, not by the default's value", floor=3,
+                 why="partial evaluation re-binds through set_default: a kept old default (or a dropped name) makes the later value differ from one full evaluation")
+    from collections import OrderedDict
+    from ..absdom.listeval import Evaluator, Opaque, UNKNOWN
+    uf = _cls(repo, "UserFunction")
+    fi = uf.methods.get("set_default")
+    if fi is None:
+        raise AnalysisError("UserFunction.set_default vanished")
+    rep.saw(fi)
+    kw = fi.node.args.kwarg.arg if fi.node.args.kwarg else None
+    if kw is None:
+        rep.undecided(R, fi.site(), fi.fq, "set_default(**values)", "no ** parameter")
+        return
+    args = ["x", "y", "k", "j"]
+    defaults = OrderedDict((("k", 1), ("j", None)))
+    given = OrderedDict((("k", 2), ("x", 7), ("z", 9), ("j", 4)))
+    want = {"k": 2, "j": 4, "x": 7}
+
+    def resolve(e, ev, f):
+        t = dump(e)
+        if t == "self.necessary_args":
+            return [a for a in args if a not in f.attrs["self.defaults"]]
+        if t == "self.optional_args":
+            return [a for a in args if a in f.attrs["self.defaults"]]
+        return None
+    fr = Evaluator(resolve).run(fi.node.body, {kw: OrderedDict(given), "self": Opaque("self")}, attrs={"self.defaults": OrderedDict(defaults), "self.args": list(args)})
+    got = fr.attrs.get("self.defaults", UNKNOWN)
+    if not isinstance(got, dict):
+        rep.undecided(R, fi.site(), fi.fq, "defaults after set_default evaluable", repr(got)[:80])
+    else:
+        rep.check(R, dict(got) == want, fi.site(), fi.fq, f"args {args}, defaults {dict(defaults)}, set_default({dict(given)}) -> {want}", f"defaults become {dict(got)}", f"{dict(got)}")
+    for pname, present in (("necessary_args", False), ("optional_args", True)):
+        pf = uf.methods.get(pname)
+        if pf is None:
+            continue
+        rep.saw(pf)
+        fr = Evaluator().run(pf.node.body, {"self": Opaque("self")}, attrs={"self.defaults": OrderedDict(defaults), "self.args": list(args)})
+        exp = [a for a in args if (a in defaults) == present]
+        if not isinstance(fr.ret, list):
+            rep.undecided(R, pf.site(), pf.fq, f"{pname} evaluable", repr(fr.ret)[:60])
+        else:
+            rep.check(R, list(fr.ret) == exp, pf.site(), pf.fq, f"{pname} of args {args} with defaults {dict(defaults)} == {exp} (a default of None is a default)", str(fr.ret), f"{pname}: {fr.ret}")
+
+
 def r6_no_alias(repo: Repo, rep):
     R = rep.rule("R-C13-6", "a new wrapper never shares the mutable `defaults` of another wrapper while set_default mutates in place", floor=1,
                  why="UserFunction(w) followed by set_default on either wrapper silently changes the other")
@@ -478,6 +524,7 @@ def run(repo: Repo, rep):
     r4_defaults_alignment(repo, rep)
     r5_copy_on_partial(repo, rep)
     r6_no_alias(repo, rep)
+    r7_set_default(repo, rep)
 
 
 _U = "src/torchphysics/utils/user_fun.py"
